@@ -44,45 +44,33 @@ Theorem C03_rec_loop_total : forall n i body start stride fs,
 Proof. exact rec_loop_total. Qed.
 Print Assumptions C03_rec_loop_total.
 
-(* ---- per decoder: length-prefixed and count-driven types ---- *)
-Theorem C03_T0x0100_total : forall gbk ver r body, ver = 1 \/ ver = 2 \/ ver = 3 -> t0100_parse gbk ver r body <> Panic.
-Proof. exact t0100_total. Qed.
-Theorem C03_T0x0102_total : forall ver body, t0102_parse ver body <> Panic.
-Proof. exact t0102_total. Qed.
-Theorem C03_T0x0104_total : forall gbk body, t0104_parse gbk body <> Panic.
-Proof. exact t0104_total. Qed.
-Theorem C03_P0x8103_total : forall gbk body, p8103_parse gbk body <> Panic.
-Proof. exact p8103_total. Qed.
-Theorem C03_T0x0805_total : forall body, t0805_parse body <> Panic.
-Proof. exact t0805_total. Qed.
-Theorem C03_T0x1205_total : forall body, t1205_parse body <> Panic.
-Proof. exact t1205_total. Qed.
-Theorem C03_T0x1210_total : forall d r body, t1210_parse d r body <> Panic.
-Proof. exact t1210_total. Qed.
-Theorem C03_T0x1211_total : forall body, t1211_parse body <> Panic.
-Proof. exact t1211_total. Qed.
-Theorem C03_T0x1212_total : forall r body, t1212_parse r body <> Panic.
-Proof. exact t1212_total. Qed.
-Theorem C03_P0x8003_total : forall body, p8003_parse body <> Panic.
-Proof. exact p8003_total. Qed.
-Theorem C03_P0x8800_total : forall body, p8800_parse body <> Panic.
-Proof. exact p8800_total. Qed.
-Theorem C03_P0x9101_total : forall body, p9101_parse body <> Panic.
-Proof. exact p9101_total. Qed.
-Theorem C03_P0x9201_total : forall body, p9201_parse body <> Panic.
-Proof. exact p9201_total. Qed.
-Theorem C03_P0x9206_total : forall body, p9206_parse body <> Panic.
-Proof. exact p9206_total. Qed.
-Theorem C03_P0x9208_total : forall d body, p9208_parse d body <> Panic.
-Proof. exact p9208_total. Qed.
-Theorem C03_P0x9212_total : forall body, p9212_parse body <> Panic.
-Proof. exact p9212_total. Qed.
-Print Assumptions C03_T0x0100_total. Print Assumptions C03_T0x0102_total. Print Assumptions C03_T0x0104_total.
-Print Assumptions C03_P0x8103_total. Print Assumptions C03_T0x0805_total. Print Assumptions C03_T0x1205_total.
-Print Assumptions C03_T0x1210_total. Print Assumptions C03_T0x1211_total. Print Assumptions C03_T0x1212_total.
-Print Assumptions C03_P0x8003_total. Print Assumptions C03_P0x8800_total. Print Assumptions C03_P0x9101_total.
-Print Assumptions C03_P0x9201_total. Print Assumptions C03_P0x9206_total. Print Assumptions C03_P0x9208_total.
-Print Assumptions C03_P0x9212_total.
+(* ---- per decoder: length-prefixed and count-driven types (one conjunct per Go Parse method;
+        C03_<T>_total is the conjunct named after the type) ---- *)
+Theorem C03_types_total :
+  (* C03_T0x0100_total *) (forall gbk ver r body, ver = 1 \/ ver = 2 \/ ver = 3 -> t0100_parse gbk ver r body <> Panic) /\
+  (* C03_T0x0102_total *) (forall ver body, t0102_parse ver body <> Panic) /\
+  (* C03_T0x0104_total *) (forall gbk body, t0104_parse gbk body <> Panic) /\
+  (* C03_P0x8103_total *) (forall gbk body, p8103_parse gbk body <> Panic) /\
+  (* C03_T0x0805_total *) (forall body, t0805_parse body <> Panic) /\
+  (* C03_T0x1205_total *) (forall body, t1205_parse body <> Panic) /\
+  (* C03_T0x1210_total *) (forall d r body, t1210_parse d r body <> Panic) /\
+  (* C03_T0x1211_total *) (forall body, t1211_parse body <> Panic) /\
+  (* C03_T0x1212_total *) (forall r body, t1212_parse r body <> Panic) /\
+  (* C03_P0x8003_total *) (forall body, p8003_parse body <> Panic) /\
+  (* C03_P0x8800_total *) (forall body, p8800_parse body <> Panic) /\
+  (* C03_P0x9101_total *) (forall body, p9101_parse body <> Panic) /\
+  (* C03_P0x9201_total *) (forall body, p9201_parse body <> Panic) /\
+  (* C03_P0x9206_total *) (forall body, p9206_parse body <> Panic) /\
+  (* C03_P0x9208_total *) (forall d body, p9208_parse d body <> Panic) /\
+  (* C03_P0x9212_total *) (forall body, p9212_parse body <> Panic).
+Proof.
+  repeat split.
+  exact t0100_total. exact t0102_total. exact t0104_total. exact p8103_total. exact t0805_total.
+  exact t1205_total. exact t1210_total. exact t1211_total. exact t1212_total. exact p8003_total.
+  exact p8800_total. exact p9101_total. exact p9201_total. exact p9206_total. exact p9208_total.
+  exact p9212_total.
+Qed.
+Print Assumptions C03_types_total.
 
 (* the terminal-parameter walk: never a panic for any fuel, and it reports no error but the length
    error when the fuel is the length of the list, i.e. termination is not what stops it *)
